@@ -442,28 +442,31 @@ def cross_differs(servers, cfg, ops):
     return any(o != outs[0] for o in outs[1:])
 
 
-def fresh_digests(prop, tier, verif_seed, n, hashseed, shard=(0, 1), block=None):
+def fresh_digests(prop, tier, verif_seed, n, hashseed, shard=(0, 1), block=None, wall=None):
     env = dict(os.environ)
     env["PYTHONHASHSEED"] = str(hashseed)
     env["VERIF_SEED"] = str(verif_seed)
     p = subprocess.run([sys.executable, os.path.join(VERIF, "vsim", "cli.py"), prop,
                         "--tier", tier, "--digests", str(n), "--shard", "%d/%d" % shard,
-                        "--block", str(block or n)], capture_output=True,
-                       text=True, env=env, timeout=3000)
+                        "--block", str(block or n)] + (["--wall", str(wall)] if wall else []),
+                       capture_output=True, text=True, env=env, timeout=(wall + 600) if wall else 3000)
     if p.returncode != 0:
         raise HarnessError("digest subprocess failed: %s" % p.stderr[-2000:])
     line = [l for l in p.stdout.splitlines() if l.startswith("DIGESTS ")][-1]
     return {int(k): tuple(v) for k, v in json.loads(line[8:]).items()}
 
 
-def compute_digests(machine_cls, tier, verif_seed, n, known, shard=(0, 1), block=None):
+def compute_digests(machine_cls, tier, verif_seed, n, known, shard=(0, 1), block=None, wall=None):
     """Digests of runs [0, n), executed block by block exactly as the worker pool does
     (each block in a child forked from this pristine interpreter); a shard takes every
-    shard[1]-th block."""
+    shard[1]-th block.  With `wall`, histories not reached in time are left out (a block
+    is cut short, never entered in the middle, so every digest returned is that of a history
+    that ran after exactly the same predecessors as in the main phase)."""
     block = block or n
+    deadline = (time.monotonic() + wall) if wall else None
     prop = machine_cls.PROPERTY
     starts = list(range(0, n, block))[shard[0]::shard[1]]
-    jobs = [(prop, tier, verif_seed, s0, min(s0 + block, n), n, known, None, n) for s0 in starts]
+    jobs = [(prop, tier, verif_seed, s0, min(s0 + block, n), n, known, deadline, n) for s0 in starts]
     out = {}
     for r in run_blocks(jobs, 1):
         if r is None or "harness_error" in r:
@@ -552,9 +555,10 @@ def run_check(prop, tier, verif_seed, workers=None, out=sys.stdout):
         from concurrent.futures import ThreadPoolExecutor
         hss = list(budget["hashseeds"])
         shards = max(1, workers // len(hss))
+        cross_wall = float(os.environ.get("VERIF_WALL") or budget.get("cross_wall", budget["wall"]))
         jobs2 = [(h, (sh, shards)) for h in hss for sh in range(shards)]
         with ThreadPoolExecutor(max_workers=len(jobs2)) as tp:
-            res = list(tp.map(lambda j: (j[0], fresh_digests(prop, tier, verif_seed, n_dig, j[0], j[1], block=bs)), jobs2))
+            res = list(tp.map(lambda j: (j[0], fresh_digests(prop, tier, verif_seed, n_dig, j[0], j[1], block=bs, wall=cross_wall)), jobs2))
         compared = 0
         for h, dg in res:
             for i, (od, outd) in dg.items():
@@ -568,6 +572,8 @@ def run_check(prop, tier, verif_seed, workers=None, out=sys.stdout):
                 if outd != digests[i][1] and i not in cross:
                     cross[i] = h
         cross_info = {"hashseeds": [0] + hss, "histories_compared": compared,
+                      "comparisons_planned": len(hss) * len([i for i in digests if i < n_dig]),
+                      "wall_budget_seconds": cross_wall,
                       "histories_differing": len(cross)}
         for i in sorted(cross)[:1]:
             viols.append((i, CROSS_SIG, "outcome log differs between PYTHONHASHSEED=0 and PYTHONHASHSEED=%s" % cross[i]))
